@@ -124,6 +124,9 @@ def init_state(ex: Executor, contract: Contract, fn_node, case=None) -> tuple[St
     st = State()
     st.ghost["$alloc"] = z3.Int("alloc0")
     st.assume(z3.Int("alloc0") >= 0)
+    for gname, gsort in ex.w.ghost_sorts.items():
+        if gname.endswith("_n") and gsort == I:
+            st.assume(z3.Const(f"G0_{gname}", gsort) >= 0)  # ghost counters / log lengths start non-negative
     bind = {}
     a = fn_node.args
     names = [x.arg for x in a.posonlyargs + a.args + a.kwonlyargs]
